@@ -18,6 +18,7 @@ import (
 	"github.com/ajitpratap0/GoSQLX/pkg/sql/parser"
 	"github.com/ajitpratap0/GoSQLX/pkg/sql/security"
 	"github.com/ajitpratap0/GoSQLX/pkg/sql/tokenizer"
+	"github.com/ajitpratap0/GoSQLX/pkg/transform"
 	"verifharness/dump"
 	"verifharness/gen"
 	"verifharness/mon"
@@ -245,7 +246,14 @@ func c09Distinct(a *ChildArgs) {
 		}
 		ast.ReleaseAST(t)
 		a.Rec.Count("evaluations", 1)
+		type takenObj struct {
+			v    reflect.Value
+			pool string
+		}
+		var everything []takenObj
+		giveBack := []func(){}
 		for _, pp := range pairs {
+			pp := pp
 			seen := map[uintptr]int{}
 			var taken []reflect.Value
 			for k := 0; k < 12; k++ {
@@ -258,17 +266,60 @@ func c09Distinct(a *ChildArgs) {
 				}
 				seen[v.Pointer()] = k
 			}
-			// give back each distinct object once
-			done := map[uintptr]bool{}
 			for _, v := range taken {
-				if !done[v.Pointer()] {
-					done[v.Pointer()] = true
-					if v.Elem().Kind() == reflect.Struct {
-						v.Elem().Set(reflect.Zero(v.Elem().Type()))
+				everything = append(everything, takenObj{v, pp.Name})
+			}
+			// give back each distinct object once (after the cross-pool comparison below)
+			giveBack = append(giveBack, func() {
+				done := map[uintptr]bool{}
+				for _, v := range taken {
+					if !done[v.Pointer()] {
+						done[v.Pointer()] = true
+						if v.Elem().Kind() == reflect.Struct {
+							v.Elem().Set(reflect.Zero(v.Elem().Type()))
+						}
+						pp.Put.Call([]reflect.Value{v})
 					}
-					pp.Put.Call([]reflect.Value{v})
+				}
+			})
+		}
+		// across pools: an object handed out by one pool must not live inside an array that an object of another
+		// pool still carries (two holders would write into the same memory)
+		type span struct {
+			lo, hi uintptr
+			owner  string
+		}
+		var arrays []span
+		for _, t := range everything {
+			if t.v.Elem().Kind() != reflect.Struct {
+				continue
+			}
+			e := t.v.Elem()
+			for i := 0; i < e.NumField(); i++ {
+				f := e.Field(i)
+				if f.Kind() == reflect.Slice && f.Cap() > 0 {
+					lo := f.Pointer()
+					arrays = append(arrays, span{lo, lo + uintptr(f.Cap())*f.Type().Elem().Size(), t.pool + "." + e.Type().Field(i).Name})
 				}
 			}
+		}
+	cross:
+		for _, t := range everything {
+			if t.v.Elem().Kind() != reflect.Struct {
+				continue
+			}
+			lo := t.v.Pointer()
+			hi := lo + t.v.Elem().Type().Size()
+			for _, ar := range arrays {
+				if lo < ar.hi && ar.lo < hi {
+					a.Rec.Viol("C09/pool-aliased/"+t.pool+"-inside-"+ar.owner, "every container obtained from the pools is indistinguishable from a fresh one (two holders never share memory)",
+						fmt.Sprintf("after parsing and releasing a tree, an object from pool %s lies inside the array still attached to %s of another pooled object", t.pool, ar.owner), map[string]interface{}{"sql": sql})
+					break cross
+				}
+			}
+		}
+		for _, f := range giveBack {
+			f()
 		}
 	}
 }
@@ -423,7 +474,7 @@ func c09Ownership(a *ChildArgs, workers int) {
 			}
 			for s := 0; s < steps; s++ {
 				op := []string{"parse-hold", "parse-hold", "tokenize-hold", "comments-hold", "parse-release", "format", "extract-hold", "scan-hold", "release-held-tree", "pool-churn", "parse-with-comments-format",
-					"batch-hold", "rejected-calls", "release-held-tree", "parser-tokens-hold"}[r.Intn(15)]
+					"batch-hold", "rejected-calls", "release-held-tree", "parser-tokens-hold", "transform-two"}[r.Intn(16)]
 				sql := gen.Plain(g.Statement(2).Toks)
 				switch op {
 				case "parse-hold":
@@ -458,6 +509,29 @@ func c09Ownership(a *ChildArgs, workers int) {
 						_, _ = gosqlx.ParseWithTimeout(bad, time.Second)
 						_, _ = gosqlx.ParseWithRecovery(bad)
 						_ = gosqlx.Validate(bad)
+					}
+				case "transform-two":
+					// one set of rewriting rules applied to two trees (a tenant filter over a batch): the trees stay two
+					// trees; releasing or rewriting one of them leaves the other as it was
+					rules := []transform.Rule{transform.AddWhereFromSQL("tenant_id = 42 AND deleted = false"), transform.AddSelectStar(), transform.SetLimit(7), transform.SetOffset(3), transform.AddOrderBy("id", true)}
+					t1, e1 := gosqlx.Parse("SELECT id FROM a")
+					t2, e2 := gosqlx.Parse("SELECT id, n FROM b WHERE x = 1")
+					if e1 == nil && e2 == nil {
+						ok := true
+						for _, t := range []*ast.AST{t1, t2} {
+							if err := transform.Apply(t.Statements[0], rules...); err != nil {
+								ok = false
+							}
+						}
+						if ok {
+							tt := t2
+							trees = append(trees, tt)
+							holds = append(holds, held{Ptr: tt, What: "tree", Snap: dump.Dump(tt), Get: func() string { return dump.Dump(tt) }})
+							if r.Intn(2) == 0 {
+								_ = transform.Apply(t1.Statements[0], transform.QualifyColumns("a"), transform.SetLimit(99))
+							}
+							ast.ReleaseAST(t1)
+						}
 					}
 				case "parser-tokens-hold":
 					// the caller's parser-token stream (here of a two-statement script), handed to the token-level entry
